@@ -36,6 +36,17 @@ def run(res, props_file, pinned, tag, what):
         for c in onchain_cases:
             for v in c.get("c11_violations", [])[:1]:
                 found.append(("onchain", c["id"], v, {"policy": c["policy"], "transaction": c["transaction"], "steps": c["steps"]}))
+    # the chain-tracking state: the tracker domain (C13's harness) snapshots tip, height, remembered headers, watches
+    # and the monitors around every refused block request
+    tracker_cases = []
+    if tag == "C10":
+        tr = lib.run_harness("tracker", "seq", res.seed + 11, 150 if quick else 2000, res.tier, timeout=3000)
+        th = lib.run_harness("tracker", "handler", res.seed + 12, 60 if quick else 800, res.tier, timeout=3000)
+        tracker_cases = tr["CASE"] + th["CASE"]
+        for c in tracker_cases:
+            for v in c.get("atomicity_violations", [])[:1]:
+                found.append(("tracker", c.get("id"), "a refused block request changed the chain-tracking state: %s" % str(v)[:400],
+                              {k: c[k] for k in c if not k.startswith("coq")}))
     for dom, cid, v, ops in found[:4]:
         res.violation("%s fails on the implementation: %s" % (tag, v[:300]),
                       {"domain": dom, "seed": res.seed, "case": cid, "what": v, "history": ops})
@@ -74,6 +85,7 @@ def run(res, props_file, pinned, tag, what):
                 "non-trivial (nodeops) = has a restart, a refusal and an accepted forget; distinct by full history",
         "samples": [{"domain": "nodeops", "ops": ncases[0]["ops"][:10]}],
         "onchain_cases_with_restart_comparison": len(onchain_cases),
+        "tracker_histories_with_refusal_snapshots": len(tracker_cases),
         "requests_checked": requests,
         "refused_requests_checked": refused,
         "traces_validated_against_impl": len(ncases),
